@@ -37,7 +37,8 @@ ASSUMPTIONS = ["float64 CPU, 1 thread", "scf_eps 1e-10 (SCF noise is 2-3 orders 
                "excited-state force comparison only when the active root is >= 0.05 eV from its neighbours"]
 REQUIRED_MONITORS = ["rows_compared", "padding_only_pairs", "swap_pairs", "cis_rows_compared", "md_rows_compared",
                      "sp2_calls", "perm_layouts", "parser_calls_checked", "equal_norb_batches", "finite_T_batches", "fermi_q_calls",
-                     "md_dof_ratio_rows", "md_dof_scale_vel_rows", "scf_cycle_rows_compared"]
+                     "md_dof_ratio_rows", "md_dof_scale_vel_rows", "scf_cycle_rows_compared", "cis_state_dipole_rows_compared",
+                     "cis_all_forces_rows_compared"]
 # thorough tier: cases not started after this many seconds are skipped and reported (env override for smoke tests)
 BUDGET_S = {"thorough": float(__import__("os").environ.get("VERIF_C05_BUDGET", "1700"))}
 CASE_TIMEOUT = 900.0
@@ -238,6 +239,28 @@ def _loose_eps_cases(g, tier):
     return out
 
 
+def _cisall_cases(g, tier):
+    """Named cells: EVERY published excited-state output alone vs in a same-species batch of 2-3 distorted geometries, several
+    orders: with do_all_forces=True the per-state forces (all_forces), relaxed / unrelaxed state dipoles of every state
+    (all_cis_relaxed_diploles, all_cis_unrelaxed_diploles [sic], cis_state_*_dipole), transition dipoles, oscillator
+    strengths, excitation energies, ground-state outputs."""
+    names = ["CH2O", "H2O", "HCN", "NH3", "C2H4", "HNO", "CH3F", "HCOOH", "CO", "C2H2"]
+    if tier == "quick":
+        plan = [("AM1", "cis", 2, 0), ("PM3", "cis", 3, 0), ("MNDO", "rpa", 2, 0), ("AM1", "cis", 2, 1)]
+    else:
+        plan = [(m, e, n, pad) for m in ("AM1", "PM3", "MNDO") for e in ("cis", "rpa") for n in (2, 3) for pad in (0, 1, 2)]
+    out = []
+    for method, em, n, pad in plan:
+        av = [x for x in names if gen.available(x, method)]
+        nm = av[int(g.integers(0, len(av)))]
+        mem = [{"mol": nm, "geom_seed": int(g.integers(0, 2**31))} for _ in range(n)]
+        perms = list(itertools.permutations(range(n)))
+        orders = [list(perms[int(i)]) for i in g.permutation(len(perms))[:3]]
+        out.append({"kind": "cisall", "method": method, "exc_method": em, "members": mem, "n_states": 4, "judged_states": 3,
+                    "orders": orders, "pad": pad, "padval": PADVALS[int(g.integers(0, 4))], "seed": int(g.integers(0, 2**31))})
+    return out
+
+
 def _md_dof_cases(g, tier):
     """Named cells: a non-linear molecule alone vs batched with a diatomic (both orders), remove_com=('angular', 1):
     (a) Temp > 0, velocities drawn by the engine - the draws differ between the two runs (different tensor shapes), so
@@ -360,6 +383,7 @@ def gen_cases(tier, seed):
     sp += _finite_T_cases(gen.rng("C05", tier, "finite-T"), tier)
     sp += _loose_eps_cases(gen.rng("C05", tier, "loose-eps"), tier)
     cases += _md_dof_cases(gen.rng("C05", tier, "md-dof"), tier)
+    cases += _cisall_cases(gen.rng("C05", tier, "cisall"), tier)
     return sp[:3] + cases + sp[3:]
 
 
@@ -1126,6 +1150,106 @@ def _run_md(case):
                     "zero_com": mon_b, "x_final_row0": batch[0]["x"][-1].tolist()}}
 
 
+EXC_ATTRS = ("all_forces", "all_cis_relaxed_diploles", "all_cis_unrelaxed_diploles", "cis_state_relaxed_dipole",
+             "cis_state_unrelaxed_dipole", "transition_dipole", "oscillator_strength", "cis_energies")
+
+
+def _exc_run(S, C, sett, mols):
+    """single point keeping the molecule object, so that every published excited-state attribute can be read.
+    -> (outputs dict | None, exception | None)"""
+    from vlib import run
+
+    try:
+        if len(mols) == 1 and len(S) == 1:
+            out = run.single_point(S, C, sett, charges=float(mols[0]["q"]), mult=float(mols[0]["mult"]), keep=True)
+        else:
+            out = run.single_point(S, C, sett, charges=[float(m["q"]) for m in mols], mult=[float(m["mult"]) for m in mols], keep=True)
+    except Exception as exc:  # noqa: BLE001
+        return None, exc
+    mol = out.pop("_mol")
+    out.pop("_es", None)
+    out.pop("_sett", None)
+    for a in EXC_ATTRS:
+        out[a] = run.npy(getattr(mol, a, None))
+    return out, None
+
+
+def _run_cisall(case):
+    acc = _Acc()
+    mems = [_member(m) for m in case["members"]]
+    from vlib import run
+
+    sett = run.settings(case["method"], eps=EPS, converger=(2,), grad="analytical",
+                        excited={"n_states": case["n_states"], "tolerance": 1e-8, "method": case["exc_method"]},
+                        extra={"do_all_forces": True})
+    n = len(mems[0]["Z"])
+    nj = case["judged_states"]
+    acc.cells.add("cisall/%s/%s/nmol=%d/pad=+%d" % (case["method"], case["exc_method"], len(mems), case["pad"]))
+    alone = []
+    for m in mems:
+        o, exc = _exc_run([m["Z"]], [m["X"].tolist()], sett, [m])
+        if exc is not None:
+            return {"ineligible": "alone excited-state run raised %s" % type(exc).__name__, "obs": _exc_info(exc)}
+        alone.append(o)
+    det = {"case": {k: v for k, v in case.items() if k != "members"}, "members": case["members"]}
+    nontrivial = False
+    for order in case["orders"]:
+        mols = [mems[i] for i in order]
+        S, C = _batch_arrays(mols, case["pad"], case["padval"], case["seed"])
+        b, exc = _exc_run(S, C, sett, mols)
+        if exc is not None:
+            info = _exc_info(exc)
+            if "did not converge" in info["msg"] or "not converged" in info["msg"]:
+                acc.count("cisall_batch_solver_not_converged")      # same standing as a non-convergence flag: not judged
+                continue
+            acc.viol.append({"clause": "cisall-batch-raises-alone-does-not", "mech": None, "detail": dict(det, order=order, exception=info)})
+            continue
+        for k, i in enumerate(order):
+            a = alone[i]
+            if _flag(a, 0) or _flag(b, k):
+                continue
+            ea, eb = np.asarray(a["cis_energies"][0], float), np.asarray(b["cis_energies"][k], float)
+            # states whose excitation energy is >= 0.05 eV from both neighbours (the root above the last judged one is computed too)
+            sep = [bool(min(abs(ea[r] - ea[t]) for t in range(len(ea)) if t != r) >= 0.05) for r in range(nj)]
+            bad = {}
+
+            def chk(name, val, t, bad=bad):
+                if acc.upd("cisall_" + name, val, t):
+                    bad[name] = float(val)
+
+            chk("dEtot", abs(float(a["Etot"][0]) - float(b["Etot"][k])), A_E)
+            chk("d_excitation", np.abs(ea[:nj] - eb[:nj]).max(), A_EXC)
+            chk("d_ground_force", np.abs(a["force"][0][:n] - b["force"][k][:n]).max(), A_F)
+            if a.get("dipole") is not None and b.get("dipole") is not None:
+                chk("d_ground_dipole", np.abs(a["dipole"][0] - b["dipole"][k]).max(), A_MU)
+            for r in range(nj):
+                if not sep[r]:
+                    acc.count("cisall_states_not_separated")
+                    continue
+                acc.count("cisall_states_compared")
+                if a["all_forces"] is not None and b["all_forces"] is not None:
+                    chk("d_state_force", np.abs(a["all_forces"][0][r + 1][:n] - b["all_forces"][k][r + 1][:n]).max(), A_F)
+                    acc.count("cis_all_forces_rows_compared")
+                for key, nm in (("all_cis_relaxed_diploles", "d_relaxed_state_dipole"), ("all_cis_unrelaxed_diploles", "d_unrelaxed_state_dipole")):
+                    if a[key] is not None and b[key] is not None:
+                        chk(nm, np.abs(a[key][0][r] - b[key][k][r]).max(), A_MU)
+                        acc.count("cis_state_dipole_rows_compared")
+                for key, nm in (("transition_dipole", "d_transition_dipole_abs"), ("oscillator_strength", "d_oscillator_strength")):
+                    if a[key] is not None and b[key] is not None and np.asarray(a[key]).ndim >= 2:
+                        chk(nm, np.abs(np.abs(a[key][0][r]) - np.abs(b[key][k][r])).max(), A_MU)      # phase of a state is free
+            if a["all_forces"] is not None and b["all_forces"] is not None:
+                chk("d_all_forces_ground_row", np.abs(a["all_forces"][0][0][:n] - b["all_forces"][k][0][:n]).max(), A_F)
+            # (cis_state_relaxed_dipole / cis_state_unrelaxed_dipole are the rows of the LAST computed root, whose upper neighbour is
+            #  unknown, so they are covered through the all_cis_* rows of the judged states only)
+            if bad:
+                acc.viol.append({"clause": "cisall-alone-vs-batch", "mech": None,
+                                 "detail": dict(det, order=order, row=k, mol=mems[i]["name"], differences=bad)})
+            nontrivial = True
+    return {"nontrivial": nontrivial, "violations": acc.viol, "margins": acc.margins, "monitors": acc.mon, "cells": sorted(acc.cells),
+            "obs": {"members": [m["name"] for m in mems], "cis_alone": [np.asarray(a["cis_energies"][0]).tolist() for a in alone],
+                    "published": [k for k in EXC_ATTRS if alone[0].get(k) is not None], "worst": acc.margins}}
+
+
 def run_case(case):
     kind = case.get("kind", "sp")
     n0 = _G.get("parser_checks", 0)
@@ -1136,6 +1260,8 @@ def run_case(case):
         res = _run_cis(case)
     elif kind == "md":
         res = _run_md(case)
+    elif kind == "cisall":
+        res = _run_cisall(case)
     else:
         return {"harness_error": "unknown case kind %r" % kind}
     res.setdefault("monitors", {})["parser_calls_checked"] = _G.get("parser_checks", 0) - n0
